@@ -23,6 +23,23 @@ CHECKS = {
     },
 }
 
+CHECKS["C03"] = {
+    "engine": "tlc",
+    "level": "model_checking",
+    "design_ref": "DESIGN.md section 4 C03, Appendix B/G",
+    "technique": "TLA+ encoding semantics (CapnpSem.Value) + TLC-enumerated messages from a slot-driven boundary-alphabet generator (EncGen); spec->code replay: the real accessors must return the tree TLC computes",
+    "text": "Every reachable state of EncGen (a message built by assigning, to each reachable pointer slot in turn, each word of an alphabet derived from the case analysis of the pointer-resolution spec: all pointer kinds x boundary offsets x boundary sizes, far/double-far pads, composite tags) is read through the public accessors in 4 presentations and compared node by node with CapnpSem.Value; where the spec value is Err the implementation is free. Includes mixed-width data reads, beyond-section defaults and both directions of the list upgrade rule.",
+    "note": "Bounded: <= 3 segments of <= 5 words, <= 3-4 assigned pointer slots, lists <= 64 elements. Trusted: TLC, CapnpSem as a reading of encoding.html (generator and decoder are cross-checked by FillPreserves), the walker's JSON rendering.",
+}
+CHECKS["C01"] = {
+    "engine": "tlc",
+    "level": "model_checking",
+    "design_ref": "DESIGN.md section 4 C01",
+    "technique": "TLC-enumerated hostile messages (EncGen states: valid and invalid boundary placements of every pointer kind) + schema-directed and seeded byte-level variants, replayed through every read-side consumer; oracle = no panic / no fatal error / no hang / no slice outside the segments",
+    "text": "The same TLC-generated message space as C03 (which contains one message per branch of the spec's pointer-resolution case analysis, taken and not taken), each in ~7 variants, is pushed through accessor walk, Equal, Canonicalize, deep copy, text.Marshal under 10 schema types and pogs.Extract, with default limits and with a 2^40 traversal budget; panics are recovered and reported, fatal errors (stack overflow) are found by bisecting the dying driver, hangs by a watchdog.",
+    "note": "No value oracle (that is C03). Exhaustive only within the EncGen bounds; arbitrary bit patterns are sampled (seeded). Messages containing a list of > 2^20 elements are not run with the 2^40 budget (work legitimately proportional to T).",
+}
+
 NOT_APPLICABLE = {
     "C%02d" % i: "check not built yet in this session (planned, see DESIGN.md section 9); not claimed until its TLA+ spec and conformance harness exist" for i in range(1, 21)
 }
